@@ -252,7 +252,7 @@ class Run:
 
     # ---- all obligations -----------------------------------------------------------------
     def run_all(self, obs, jobs=None):
-        jobs = jobs or max(1, NCPU // 2)  # each obligation runs prop + twin concurrently
+        jobs = jobs or max(1, NCPU - 4)  # each obligation runs prop + twin concurrently
         with cf.ThreadPoolExecutor(max_workers=jobs) as ex:
             futs = {ex.submit(self.solve, ob): ob for ob in obs}
             for f in cf.as_completed(futs):
